@@ -44,6 +44,9 @@ def cases(tier, seed):
     m = 4 if tier == "quick" else 30
     for i in range(m):
         out.append(dict(id="finder%03d" % i, kind="finder", index=i))
+    m = 6 if tier == "quick" else 40
+    for i in range(m):
+        out.append(dict(id="findergrp%03d" % i, kind="findergrp", index=i))
     return out
 
 
@@ -305,6 +308,18 @@ def run_backref(spec, res):
     from vf import au
     ss = au.load(spec["case"])
     check_backrefs(res, ss, spec["case"])
+    # a System that is set up again (reset) has had every referrer collected a second time
+    if not res.violations:
+        try:
+            ss.PFlow.run()
+            ss.reset()
+            res.count("backref_checks_after_reset")
+            check_backrefs(res, ss, spec["case"] + " after PFlow.run + reset()")
+            if not res.violations:
+                ss.reset()
+                check_backrefs(res, ss, spec["case"] + " after a second reset()")
+        except Exception as e:
+            res.note("reset raised %r" % (e,))
     # every mandatory reference of a successfully set-up system exists in its target
     n_bad = mandatory_refs_exist(res, ss, spec["case"])
     res.sig = "backref:" + spec["case"]
@@ -441,9 +456,116 @@ def run_finder(spec, res):
     res.sample = dict(ieeest_added=len(added), busfreq_before=nb0, busfreq_after=ss.BusFreq.n, preexisting=pre)
 
 
+def same_idx(a, b):
+    try:
+        return float(a) == float(b)
+    except (TypeError, ValueError):
+        return str(a) == str(b)
+
+
+def run_findergrp(spec, res):
+    """A finder whose target is a *group*: grid-forming converters (REGF2) name, find or create a device of group PLL
+    (models PLL1 / PLL2).  Own expectation from the input rows only."""
+    import json
+    import os
+    import andes
+    from vf import au
+    rng = rng_for(spec.get("seed", 0), PROPERTY, 6, spec["index"])
+    with open(au.case("ieee14/ieee14.json")) as f:
+        data = json.load(f)
+    gens = [d for d in data["GENROU"]]
+    k = int(rng.integers(1, 3))
+    picked = [gens[int(i)] for i in rng.choice(len(gens), size=k, replace=False)]
+    data["REGF2"] = []
+    expect = []          # (converter idx, bus, named pll or None)
+    plls = {}            # idx -> (model, bus)
+    for j, g in enumerate(picked):
+        data["GENROU"] = [d for d in data["GENROU"] if d["idx"] != g["idx"]]
+        gone = set()
+        for mdl in list(data):
+            rows = data[mdl]
+            if isinstance(rows, list) and rows and isinstance(rows[0], dict) and "syn" in rows[0]:
+                gone.update(str(d["idx"]) for d in rows if d.get("syn") == g["idx"])
+                data[mdl] = [d for d in rows if d.get("syn") != g["idx"]]
+        for mdl in list(data):
+            rows = data[mdl]
+            if isinstance(rows, list) and rows and isinstance(rows[0], dict) and "avr" in rows[0]:
+                data[mdl] = [d for d in rows if str(d.get("avr")) not in gone]
+        scen = ["named_other_model", "named", "unnamed_existing", "unnamed_none"][(spec["index"] + j) % 4]
+        row = dict(idx="GFM_%d" % j, u=1.0, name="GFM_%d" % j, bus=g["bus"], gen=g["gen"], Sn=100.0)
+        named = None
+        if scen in ("named", "named_other_model", "unnamed_existing"):
+            pm = "PLL2" if scen == "named" else ("PLL1" if scen == "named_other_model" else ["PLL1", "PLL2"][int(rng.integers(0, 2))])
+            pidx = ["PLL_%s" % "ABC"[j], 70 + j][int(rng.integers(0, 2))]
+            data.setdefault(pm, []).append(dict(idx=pidx, u=1.0, name="P%d" % j, bus=g["bus"]))
+            plls[str(pidx)] = (pm, g["bus"])
+            if scen != "unnamed_existing":
+                row["pll"] = pidx
+                named = pidx
+        data["REGF2"].append(row)
+        expect.append((row["idx"], g["bus"], named, scen))
+    with au.Scratch("c19") as sd:
+        path = os.path.join(sd, "regf2.json")
+        with open(path, "w") as f:
+            json.dump(data, f)
+        try:
+            ss = au.load(path)
+        except Exception as e:
+            res.violate("setup_raised", "set-up of ieee14 with REGF2 %s raised %r" % ([e_[3] for e_ in expect], e))
+            return
+        before = set(plls)
+        after = [str(i) for i in ss.PLL.get_all_idxes()]
+        created = [i for i in after if i not in before]
+        for cidx, bus, named, scen in expect:
+            pos = ss.REGF2.idx2uid(cidx)
+            linked = ss.REGF2.pllidx.v[pos]
+            res.count("device_finder_links_checked")
+            res.count("device_finder_group_links_" + scen)
+            if named is not None:
+                if str(linked) != str(named):
+                    res.violate("finder_ignored_given", "REGF2 %r names PLL device %r (a %s in group PLL) but is linked to %r; group PLL now holds %s" % (
+                        cidx, named, plls[str(named)][0], linked, after), scenario=scen)
+                continue
+            if str(linked) not in after:
+                res.violate("finder_missing", "REGF2 %r is linked to %r which is not in group PLL (%s)" % (cidx, linked, after), scenario=scen)
+                continue
+            lb = ss.PLL.get("bus", linked, "v")
+            if not same_idx(lb, bus):
+                res.violate("finder_wrong_target", "REGF2 %r at bus %r is linked to PLL %r at bus %r" % (cidx, bus, linked, lb), scenario=scen)
+            if scen == "unnamed_existing" and str(linked) in created:
+                res.violate("finder_duplicate_helper", "REGF2 %r at bus %r: a helper PLL %r was created although %s already measures that bus" % (
+                    cidx, bus, linked, [i for i, (m_, b_) in plls.items() if same_idx(b_, bus)]), scenario=scen)
+        # nothing created beyond one helper per converter that had nothing to find
+        need = sum(1 for e_ in expect if e_[3] == "unnamed_none")
+        if len(created) > need:
+            res.violate("finder_duplicate_helper", "%d PLL devices were created (%s) for %d converters without one; scenarios %s" % (
+                len(created), created, need, [e_[3] for e_ in expect]))
+        # the converter reads the output of the device it is linked to
+        try:
+            ss.PFlow.run()
+            ss.TDS.config.no_tqdm = 1
+            ss.TDS.init()
+            for cidx, bus, named, scen in expect:
+                pos = ss.REGF2.idx2uid(cidx)
+                linked = ss.REGF2.pllidx.v[pos]
+                if str(linked) in after:
+                    used = int(ss.REGF2.plldw.a[pos])
+                    want = int(np.ravel(ss.PLL.get("PI_y", linked, "a"))[0])
+                    res.count("device_finder_addresses_checked")
+                    if used != want:
+                        res.violate("finder_wrong_address", "REGF2 %r is linked to PLL %r but reads address %d, PI_y of that device is at %d" % (
+                            cidx, linked, used, want))
+        except Exception as e:
+            res.note("power flow / initialisation raised %r" % (e,))
+        check_backrefs(res, ss, "findergrp")
+    res.sig = "findergrp:%d:%d" % (spec.get("seed", 0), spec["index"])
+    res.nontrivial = True
+    res.sample = dict(scenarios=[e_[3] for e_ in expect], pll_devices=after, created=created)
+
+
 def run_case(spec):
     res = Result(spec)
-    {"addseq": run_addseq, "backref": run_backref, "dangling": run_dangling, "finder": run_finder}[spec["kind"]](spec, res)
+    {"addseq": run_addseq, "backref": run_backref, "dangling": run_dangling, "finder": run_finder, "findergrp": run_findergrp}[spec["kind"]](spec, res)
     return res
 
 
